@@ -133,6 +133,70 @@ def outs (s : State) : List Op → List Out
   | [] => []
   | o :: os => (step s o).2 :: outs (step s o).1 os
 
+/-! ## The handler's interval source
+
+In `step`, `trigger` is an event the environment delivers: a block notification or an interval
+tick.  For block notifications that is all there is to say.  Interval ticks, however, come from a
+source the handler itself owns, and whether that source goes on firing is decided by the handler's
+code.  `TState` adds that source to the state; `tick` is enabled only while it is armed. -/
+
+/-- How the handler's loop treats the source of its interval ticks (regenerated from
+`broadcastHandler`).  `periodic`: the source re-arms itself — a `time.Ticker` created once before the
+loop and stopped only by the deferred `Stop`.  Otherwise it is a one-shot `time.Timer`, armed again
+only where the code says so; the four flags say whether EVERY path of that kind through the arm calls
+`Reset` on it: the interval arm / the block arm, on the path where `triggerRebroadcast` obtains the
+semaphore (a rebroadcast goroutine is spawned) / on the path where it finds a rebroadcast still
+running and returns. -/
+structure IntervalSrc where
+  periodic : Bool
+  tickRearmAcquired : Bool := false
+  tickRearmBusy : Bool := false
+  blockRearmAcquired : Bool := false
+  blockRearmBusy : Bool := false
+deriving DecidableEq, Repr
+
+/-- every path through the interval arm leaves the source armed -/
+def IntervalSrc.sound (iv : IntervalSrc) : Bool := iv.periodic || (iv.tickRearmAcquired && iv.tickRearmBusy)
+
+structure TState where
+  core : State := {}
+  /-- the interval source will fire again (ticker running / timer armed) -/
+  armed : Bool := true
+deriving DecidableEq, Repr
+
+inductive TOp
+  | tick          -- the interval source fires and the handler takes that arm
+  | op (o : Op)   -- any other event; `.op .trigger` is a block notification
+deriving DecidableEq, Repr
+
+/-- does the arm (`fromTick`: interval arm, else block arm) re-arm a one-shot source on the path that
+ended with `out`? -/
+def rearmed (iv : IntervalSrc) (fromTick : Bool) : Out → Bool
+  | .busy => if fromTick then iv.tickRearmBusy else iv.blockRearmBusy
+  | .idle => if fromTick then iv.tickRearmAcquired else iv.blockRearmAcquired
+  | .started _ => if fromTick then iv.tickRearmAcquired else iv.blockRearmAcquired
+  | _ => false
+
+def tstep (iv : IntervalSrc) (t : TState) : TOp → TState × Out
+  | .tick =>
+    -- a one-shot source that was not armed again never fires; after Stop the handler is gone
+    if !t.armed || t.core.stopped then (t, .noop)
+    else
+      let r := step t.core .trigger
+      ({ core := r.1, armed := iv.periodic || rearmed iv true r.2 }, r.2)
+  | .op o =>
+    let r := step t.core o
+    ({ core := r.1, armed := t.armed || (decide (o = .trigger) && rearmed iv false r.2) }, r.2)
+
+def trun (iv : IntervalSrc) (t : TState) : List TOp → TState
+  | [] => t
+  | o :: os => trun iv (tstep iv t o).1 os
+
+/-- a history with its ticks read as the environment's triggers -/
+def TOp.toOp : TOp → Op
+  | .tick => .trigger
+  | .op o => o
+
 /-! ## The verdict of `ChainService.sendTransaction` (query.go, after `queryAllPeers`) -/
 
 /-- pushtx.BroadcastErrorCode -/
